@@ -203,7 +203,7 @@ PLANS["C03"] = {
 FLOORS["C03"] = {"quick": [
     (">= 10^5 API calls, >= 10^4 returned errors, >= 50 tolerated panics outside the envelope (the hostile kernels do bite)",
      lambda o: o["counters"]["api_calls"] >= 10 ** 5 and o["counters"]["returned_err"] >= 10 ** 4 and o["counters"]["panics_outside_envelope_tolerated"] >= 50),
-    ("every compiled container pair used", lambda o: len(o["sets"]["container_pairs"]) >= 22),
+    ("every compiled container pair used", lambda o: len(o["sets"]["container_pairs"]) >= 24),
     (">= 10^8 windows checked by the sweep", lambda o: o["counters"]["windows_checked"] >= 10 ** 8),
 ]}
 FLOORS["C03"]["thorough"] = FLOORS["C03"]["quick"]
@@ -251,7 +251,7 @@ FLOORS["C05"] = {"quick": [
     (">= 10^7 destination pixels checked, >= 1000 erroring calls, >= 1000 zero-sized calls",
      lambda o: o["counters"]["destination_pixels_checked"] >= 10 ** 7 and o["counters"]["erroring_calls"] >= 1000 and o["counters"]["zero_sized_calls"] >= 1000),
     ("every compiled resize container pair, >= 20 alpha paths, >= 20 mapper paths, >= 20 change_type paths",
-     lambda o: len(o["sets"]["resize_container_pairs"]) >= 22 and len(o["sets"]["alpha_paths"]) >= 20 and len(o["sets"]["mapper_paths"]) >= 20 and len(o["sets"]["change_type_paths"]) >= 20),
+     lambda o: len(o["sets"]["resize_container_pairs"]) >= 24 and len(o["sets"]["alpha_paths"]) >= 20 and len(o["sets"]["mapper_paths"]) >= 20 and len(o["sets"]["change_type_paths"]) >= 20),
 ]}
 FLOORS["C05"]["thorough"] = FLOORS["C05"]["quick"]
 
@@ -266,7 +266,7 @@ PLANS["C13"] = {
     "thorough": [step("rel", "firv-views", 16000000, timeout=7200), step("asan", "firv-views", 3000000, timeout=7200), step("rel+rayon", "firv-views", 4000000, sub="threads", timeout=7200)],
 }
 FLOORS["C13"] = {"quick": [
-    ("every compiled container pair and >= 20 alpha paths used", lambda o: len(o["sets"]["container_pairs"]) >= 22 and len(o["sets"]["alpha_paths"]) >= 20),
+    ("every compiled container pair and >= 20 alpha paths used", lambda o: len(o["sets"]["container_pairs"]) >= 24 and len(o["sets"]["alpha_paths"]) >= 20),
 ]}
 FLOORS["C13"]["thorough"] = FLOORS["C13"]["quick"]
 
